@@ -358,9 +358,9 @@ finding("C07-wildcard-join-duplicate-names", "C07", ["C01", "C05"],
  "a join of two relations of unknown columns (`from t | join u (..)`, both emitted as `t.*, u.*`) that share a column name, followed by steps that move the join into a CTE and refer to a shared name (hazard wild_dup_join)",
  "`from t1 | join t2 (==id) | derive {c2 = 1} | filter t2.a == 5` compiles to `WITH table_0 AS (SELECT t1.*, t2.*, 1 AS c2 FROM t1 INNER JOIN t2 ON t1.id = t2.id) SELECT * FROM table_0 WHERE a = 5`: inside table_0 there are two columns `a`; the filter meant t2.a (SQLite silently takes the first, other engines reject the ambiguous name). With a self-join (`from t3 | join r0 = t3 (==s) | derive {..} | filter r0.a == 0`) the reference becomes `_expr_1`, which table_0 never defines (no such column).",
  None)
-finding("C09-user-table-renamed-after-sstring-cte", "C09", [],
- "a let-table whose body is a table s-string (`from s\"..\"`) that needs a CTE of its own, in a program that reads a user table called `table_0`: the emitted SQL reads `table_1 AS table_0`",
- "The CTE made for the s-string relation is named `table_0` without regard to the user's table of that name, and the user's table is then renamed as if it were a generated one: `let x = (from s\"SELECT 1 AS id\" | take 1)  from table_0 | join x (==id)` compiles to `WITH table_0 AS (SELECT 1 AS id), x AS (..) SELECT .. FROM table_1 AS table_0 INNER JOIN x ..` - `table_1` does not exist. (Seen by a seeding agent on the unchanged tree; s-strings are outside the generators, so only this probe exercises it.)",
+finding("C09-user-table-renamed-as-generated", "C09", [],
+ "a user table called `table_M` in a program where a CTE is named `table_M` first (a let-table that needs a helper CTE, a table s-string): the emitted SQL reads `table_N AS table_M` for the user's table, and no relation `table_N` is defined",
+ "Generated CTE names are assigned without regard to a user table of the same name that is lowered later, and that table is then renamed as if it were a generated one: `let x = (from s\"SELECT 1 AS id\" | take 1)  from table_0 | join x (==id)` compiles to `WITH table_0 AS (SELECT 1 AS id), x AS (..) SELECT .. FROM table_1 AS table_0 INNER JOIN x ..` - `table_1` does not exist. Also without s-strings: `module ma { let lt = (from table_0 | select {..} | derive .. | join side:left r = (from table_0 | filter .. | select {..}) (..)) } ..` emits `FROM table_1 AS table_0` inside the CTEs of `lt` (met by the hazardous-name generator at seed 5).",
  {"source": "let x = (from s\"SELECT 1 AS id\" | take 1)\nfrom table_0 | join x (==id) | select {table_0.id, table_0.a}", "arity": 2, "rows": [[I(1), I(10)]], "props": ["C09"],
   "db": {"tables": [{"name": "table_0", "cols": [{"name":"id","ty":"Int"},{"name":"a","ty":"Int"}], "rows": [[I(1),I(10)],[I(2),I(20)]]}]}})
 finding("C08-formatter-rewrites-literal-with-backslash", "C08", [],
